@@ -64,6 +64,7 @@ type sigSpec struct {
 	Container int    `json:"container"` // key put into the SignatureContainer
 	DigestOf  int    `json:"digestOf"`  // index of the input whose digest is signed
 	Mut       string `json:"mut"`       // "" | highS | flipR | flipS | zeroS
+	Gen       int    `json:"gen,omitempty"` // histories: 0 = hashes of the last computation, k = of the k-th ComputeSignatureHashes call
 }
 
 type input struct {
@@ -72,6 +73,7 @@ type input struct {
 	Outs   []outSpec `json:"outs"`
 	Sigs   []sigSpec `json:"sigs"`
 	Wallet bool      `json:"wallet"` // go through tbtc signTransaction (container key = key 0)
+	Hist   []histOp  `json:"hist,omitempty"` // an operation history on ONE builder (then Ins/Outs/Sigs are unused)
 }
 
 // ------------------------------------------------------------------ fake chain
@@ -208,7 +210,77 @@ func depositScript(d *depSpec, walletPKH [20]byte, refundPKH [20]byte) []byte {
 	return s
 }
 
+// resolveIn derives the scripts of one input specification.
+func resolveIn(s inSpec, pkhs [][20]byte, pkBytes [][]byte) resolvedIn {
+	r := resolvedIn{spec: s}
+	pkh := pkhs[s.Key]
+	if s.Api == "sh" {
+		switch {
+		case s.Dep != nil:
+			r.redeem = depositScript(s.Dep, pkh, pkhs[s.Dep.RefundKey])
+			r.regular = true
+		case s.Redeem == "p2pkh":
+			r.redeem, _ = bitcoin.PayToPublicKeyHash(pkh)
+		case s.Redeem == "pkchecksig":
+			r.redeem = append(append([]byte{33}, pkBytes[s.Key]...), 0xac)
+		case s.Redeem == "truncated":
+			r.redeem = []byte{0x14, 1, 2, 3}
+		default:
+			r.redeem = mustHex(s.Redeem)
+		}
+	}
+	switch s.Kind {
+	case "p2pkh":
+		r.utxoScript, _ = bitcoin.PayToPublicKeyHash(pkh)
+		r.regular = s.Api == "pkh"
+	case "p2wpkh":
+		r.utxoScript, _ = bitcoin.PayToWitnessPublicKeyHash(pkh)
+		r.regular = s.Api == "pkh"
+	case "p2sh":
+		red := r.redeem
+		if red == nil {
+			red = []byte{0x51}
+		}
+		r.utxoScript, _ = bitcoin.PayToScriptHash(bitcoin.ScriptHash(red))
+		r.regular = r.regular && s.Api == "sh"
+	case "p2wsh":
+		red := r.redeem
+		if red == nil {
+			red = []byte{0x51}
+		}
+		r.utxoScript, _ = bitcoin.PayToWitnessScriptHash(bitcoin.WitnessScriptHash(red))
+		r.regular = r.regular && s.Api == "sh"
+	default:
+		r.utxoScript = mustHex(s.Raw)
+		r.regular = false
+	}
+	if len(r.utxoScript) == 22 && r.utxoScript[0] == 0 && r.utxoScript[1] == 20 {
+		r.p2pkhProg, _ = txscript.NewScriptBuilder().AddOp(txscript.OP_DUP).AddOp(txscript.OP_HASH160).
+			AddData(r.utxoScript[2:]).AddOp(txscript.OP_EQUALVERIFY).AddOp(txscript.OP_CHECKSIG).Script()
+	}
+	return r
+}
+
+// fund makes the UTXO of the specification exist on the fake chain.
+func (f *fakeChain) fund(s inSpec, script []byte) {
+	var h bitcoin.Hash
+	copy(h[:], mustHex(s.Txid))
+	ftx, ok := f.txs[h]
+	if !ok {
+		ftx = &bitcoin.Transaction{Version: 1}
+		f.txs[h] = ftx
+	}
+	for uint32(len(ftx.Outputs)) <= s.Vout {
+		ftx.Outputs = append(ftx.Outputs, &bitcoin.TransactionOutput{Value: 1, PublicKeyScript: []byte{0x51}})
+	}
+	ftx.Outputs[s.Vout] = &bitcoin.TransactionOutput{Value: s.Value, PublicKeyScript: script}
+}
+
 func run(in input, em *lib.Emitter, id string) {
+	if len(in.Hist) > 0 {
+		runHist(in, em, id)
+		return
+	}
 	keys := make([]*btcec.PrivateKey, len(in.Keys))
 	pkhs := make([][20]byte, len(in.Keys))
 	pkBytes := make([][]byte, len(in.Keys))
@@ -223,65 +295,10 @@ func run(in input, em *lib.Emitter, id string) {
 	fc := &fakeChain{txs: map[bitcoin.Hash]*bitcoin.Transaction{}}
 	res := make([]resolvedIn, len(in.Ins))
 	for i, s := range in.Ins {
-		r := resolvedIn{spec: s}
-		pkh := pkhs[s.Key]
-		if s.Api == "sh" {
-			switch {
-			case s.Dep != nil:
-				r.redeem = depositScript(s.Dep, pkh, pkhs[s.Dep.RefundKey])
-				r.regular = true
-			case s.Redeem == "p2pkh":
-				r.redeem, _ = bitcoin.PayToPublicKeyHash(pkh)
-			case s.Redeem == "pkchecksig":
-				r.redeem = append(append([]byte{33}, pkBytes[s.Key]...), 0xac)
-			case s.Redeem == "truncated":
-				r.redeem = []byte{0x14, 1, 2, 3}
-			default:
-				r.redeem = mustHex(s.Redeem)
-			}
-		}
-		switch s.Kind {
-		case "p2pkh":
-			r.utxoScript, _ = bitcoin.PayToPublicKeyHash(pkh)
-			r.regular = s.Api == "pkh"
-		case "p2wpkh":
-			r.utxoScript, _ = bitcoin.PayToWitnessPublicKeyHash(pkh)
-			r.regular = s.Api == "pkh"
-		case "p2sh":
-			red := r.redeem
-			if red == nil {
-				red = []byte{0x51}
-			}
-			r.utxoScript, _ = bitcoin.PayToScriptHash(bitcoin.ScriptHash(red))
-			r.regular = r.regular && s.Api == "sh"
-		case "p2wsh":
-			red := r.redeem
-			if red == nil {
-				red = []byte{0x51}
-			}
-			r.utxoScript, _ = bitcoin.PayToWitnessScriptHash(bitcoin.WitnessScriptHash(red))
-			r.regular = r.regular && s.Api == "sh"
-		default:
-			r.utxoScript = mustHex(s.Raw)
-			r.regular = false
-		}
-		if len(r.utxoScript) == 22 && r.utxoScript[0] == 0 && r.utxoScript[1] == 20 {
-			r.p2pkhProg, _ = txscript.NewScriptBuilder().AddOp(txscript.OP_DUP).AddOp(txscript.OP_HASH160).
-				AddData(r.utxoScript[2:]).AddOp(txscript.OP_EQUALVERIFY).AddOp(txscript.OP_CHECKSIG).Script()
-		}
+		r := resolveIn(s, pkhs, pkBytes)
 		res[i] = r
 
-		var h bitcoin.Hash
-		copy(h[:], mustHex(s.Txid))
-		ftx, ok := fc.txs[h]
-		if !ok {
-			ftx = &bitcoin.Transaction{Version: 1}
-			fc.txs[h] = ftx
-		}
-		for uint32(len(ftx.Outputs)) <= s.Vout {
-			ftx.Outputs = append(ftx.Outputs, &bitcoin.TransactionOutput{Value: 1, PublicKeyScript: []byte{0x51}})
-		}
-		ftx.Outputs[s.Vout] = &bitcoin.TransactionOutput{Value: s.Value, PublicKeyScript: r.utxoScript}
+		fc.fund(s, r.utxoScript)
 	}
 
 	// the unsigned transaction as the builder is expected to lay it out
@@ -640,7 +657,7 @@ func run(in input, em *lib.Emitter, id string) {
 	kh := sha256.Sum256([]byte(coq))
 	em.Case(lib.Case{
 		ID:         id,
-		Coq:        coq,
+		Coq:        "(CTx " + coq + ")",
 		Key:        hex.EncodeToString(kh[:12]),
 		Nontrivial: buildOk && (len(kinds) >= 2 || mustReject),
 		Sig: map[string]interface{}{"mode": mode, "kinds": strings.Join(kindList, "+"),
@@ -824,6 +841,13 @@ func main() {
 		run(input{Keys: keys, Ins: []inSpec{all[3], hp}, Outs: outs, Sigs: goodSigs([]inSpec{all[3], hp}), Wallet: true}, em, "corpus-huge-pushdata4-length")
 	}
 
+	// --- operation histories on one long-lived builder
+	histCorpus(em)
+	nHist := o.Count(52, 600)
+	for i := 0; i < nHist; i++ {
+		run(genHist(rng.Fork(fmt.Sprintf("hist%d", i))), em, fmt.Sprintf("hist-%d", i))
+	}
+
 	// --- exhaustive small scope: every ordered mix of the four kinds with 1..3 inputs (wallet key)
 	var mixes [][]string
 	var rec func(cur []string)
@@ -924,7 +948,10 @@ func main() {
 		}
 		run(in, em, fmt.Sprintf("rand-%d", i))
 	}
-	em.Close("a case is one transaction: inputs of the four kinds, outputs, one signature container per "+
+	em.Close("a case is one transaction, or one operation history on one builder (Add*Input, AddOutput, "+
+		"ComputeSignatureHashes several times, AddSignatures with signatures over the last or an earlier "+
+		"computation; non-trivial when the hashes were computed at least twice or the final signatures must "+
+		"be refused); a transaction case is: inputs of the four kinds, outputs, one signature container per "+
 		"input (possibly faulted), run through the real builder (and tbtc signTransaction in wallet mode) "+
 		"and btcd's engine on every input; distinct by the whole case term; non-trivial when the build "+
 		"succeeded and the inputs are of >= 2 different kinds or a signature / count fault was injected", nil)
